@@ -509,3 +509,45 @@ def tv_row_finite(tv, v):
 def nid(v, N):
     # row of a node pointer (NIL = -1 is the last row)
     return v if v >= 0 else v + N
+
+
+# ------------------------------------------------------------------ C15 region labelling of polygonize (flattened cells)
+def pz_unm(mask, q):
+    # the cell takes part (no mask, or mask true)
+    return mask is None or mask[q]
+
+
+def pz_eq(values, mask, p, q):
+    return pz_unm(mask, q) and values[q] == values[p]
+
+
+def pz_has_W(p, nx):
+    return p % nx > 0
+
+
+def pz_has_S(p, nx):
+    return p >= nx
+
+
+def pz_link(A, values, mask, p, q):
+    return (not pz_eq(values, mask, p, q)) or A[q] == A[p]
+
+
+def pz_back(A, values, mask, c8, nx, p):
+    # labelling A joins the cell with its W, S (and for 8-connectivity SW, SE) neighbours of equal value
+    return ((not pz_has_W(p, nx)) or pz_link(A, values, mask, p, p - 1)) and \
+        ((not pz_has_S(p, nx)) or pz_link(A, values, mask, p, p - nx)) and \
+        ((not (c8 and pz_has_S(p, nx) and pz_has_W(p, nx))) or pz_link(A, values, mask, p, p - nx - 1)) and \
+        ((not (c8 and pz_has_S(p, nx) and p % nx < nx - 1)) or pz_link(A, values, mask, p, p - nx + 1))
+
+
+def pz_rlink(dd, regions, values, mask, p, q):
+    return (not pz_eq(values, mask, p, q)) or dd[regions[q]] == dd[regions[p]]
+
+
+def pz_rback(dd, regions, values, mask, c8, nx, p):
+    # the same for a labelling dd of the *region ids* found at the cells
+    return ((not pz_has_W(p, nx)) or pz_rlink(dd, regions, values, mask, p, p - 1)) and \
+        ((not pz_has_S(p, nx)) or pz_rlink(dd, regions, values, mask, p, p - nx)) and \
+        ((not (c8 and pz_has_S(p, nx) and pz_has_W(p, nx))) or pz_rlink(dd, regions, values, mask, p, p - nx - 1)) and \
+        ((not (c8 and pz_has_S(p, nx) and p % nx < nx - 1)) or pz_rlink(dd, regions, values, mask, p, p - nx + 1))
